@@ -21,7 +21,7 @@
                hands to the queue is injected a second time
   verdict TLC evaluates the monitors of spec/Addr.tla on every record (spec/AddrRec.tla)
 """
-import sys, os, json, argparse, re, queue, itertools
+import sys, os, json, argparse, re, queue, itertools, time
 sys.path.insert(0, os.path.join(os.path.dirname(os.path.abspath(__file__)), "..", "lib"))
 from vlib import *
 import sessions, smtpsrv
@@ -78,14 +78,14 @@ def qa_records(tree, qq, lps, batch=400):
         else:
             redo += idxs
     if redo:
-        jobs = [("qs%d" % i, [i]) for i in redo]
+        jobs = [("qx%d" % i, [i]) for i in redo]
         rcs = sessions.pmap(run, jobs)
         got = qq.collect()
         for (tag, idxs), rc in zip(jobs, rcs):
             q = got.get(tag, [])
             rcpts = sessions.parse_envelope(q[0]["env"])[1] if q else []
             back[idxs[0]] = rcpts[0] if rc == 0 and len(rcpts) == 1 else None
-    return [{"k": "qa", "lp": list(lp), "host": list(HOST), "back": B(b)} for lp, b in zip(lps, back)]
+    return [B(b) for b in back]
 
 
 def qh_records(tree, qq, lps):
@@ -117,7 +117,7 @@ def qh_records(tree, qq, lps):
         if q and rc2 == 0:
             snd, rcpts, _ = sessions.parse_envelope(q[0]["env"])
         b1, b2 = (rcpts + [None, None])[:2] if len(rcpts) == 2 else (None, None)
-        recs.append({"k": "qh", "lp": list(lp), "host": list(HOST), "hq": B(hq), "b1": B(b1), "b2": B(b2), "snd": B(snd)})
+        recs.append({"hh": 1, "hq": B(hq), "b1": B(b1), "b2": B(b2), "snd": B(snd)})
     return recs
 
 
@@ -172,7 +172,7 @@ def qs_records(ck, tree, qq, lps, batch=150, nworkers=12):
                         i = g[0]
                         sq = U.strip_cmd(s[1][0], b"RCPT TO:") if s and len(s[1]) == 1 else None
                         sq = sq[:-len(suffix)] if sq is not None and sq.endswith(suffix) else None
-                        recs[i] = {"k": "qs", "verb": "rcpt", "lp": list(lps[i]), "host": list(HOST), "sq": B(sq), "sok": 0, "back": [-1]}
+                        recs[i] = {"sq": B(sq), "sok": 0, "sback": [-1]}
                     continue
                 q = got.get("%s%d" % (tagp, gi), [])
                 snd, rcpts = None, []
@@ -185,14 +185,13 @@ def qs_records(ck, tree, qq, lps, batch=150, nworkers=12):
                 for i, line, ok in zip(g, s[1], oks):
                     sq = U.strip_cmd(line, b"RCPT TO:")
                     sq = sq[:-len(suffix)] if sq is not None and sq.endswith(suffix) else None
-                    recs[i] = {"k": "qs", "verb": "rcpt", "lp": list(lps[i]), "host": list(HOST), "sq": B(sq), "sok": ok,
-                               "back": B(next(it) if ok else None)}
+                    recs[i] = {"sq": B(sq), "sok": ok, "sback": B(next(it) if ok else None)}
                 # the sender of the batch is its first address: one more record for MAIL FROM
                 sq = U.strip_cmd(s[0], b"MAIL FROM:")
                 sq = sq[:-len(suffix)] if sq is not None and sq.endswith(suffix) else None
                 mok = 1 if 200 <= cs[2] < 300 else 0
-                extra.append({"k": "qs", "verb": "mail", "lp": list(lps[g[0]]), "host": list(HOST), "sq": B(sq), "sok": mok,
-                              "back": B(snd if mok else None)})
+                extra.append({"k": "qm", "lp": list(lps[g[0]]), "host": list(HOST), "sq": B(sq), "sok": mok,
+                              "sback": B(snd if mok else None)})
             return redo
         extra = []
         redo = stage(chunks(list(range(len(lps))), batch), "sb")
@@ -201,7 +200,7 @@ def qs_records(ck, tree, qq, lps, batch=150, nworkers=12):
             stage([[i] for i in redo], "ss")
         if any(r is None for r in recs):
             raise Infra("SMTP path: %d addresses without a record" % len([r for r in recs if r is None]))
-        return recs + extra
+        return recs, extra
     finally:
         for ep in eps:
             ep.close()
@@ -324,7 +323,7 @@ def enum_cases(rng, ncfg):
     cases = []
     n = 0
     for (lp, q), dk in itertools.product(lps, doms):
-        shapes = [("b", [], [], s) for s in (None, "pre", "in", "post")]
+        shapes = [("b", [], 0, s) for s in (None, "pre", "in", "post")]
         shapes += [("n", ph, rt, s) for ph in ([], [b"Fred"], [b"Fred", b"J. Q"]) for rt in (0, 1, 2)
                    for s in (None, "phr", "open", "in", "close")]
         for form, ph, rt, slot in shapes:
@@ -371,6 +370,22 @@ def random_cases(rng, n, ctl):
     return cases
 
 
+def mode_flag_cases(rng):
+    """Every strategy x with/without -f x every subset of the QMAILINJECT letters, each on a small random message."""
+    cases = []
+    letters = "csfirm"
+    for mode in ("a", "h", "H", "A"):
+        for withf in (0, 1):
+            for bits in range(64):
+                flags = "".join(l for k, l in enumerate(letters) if bits >> k & 1)
+                fields = [{"name": n, "items": U.gen_items(rng, 2)} for n in rng.sample(["to", "cc", "bcc", "ato", "rto", "rbcc"], rng.randint(1, 3))]
+                args = [{"lp": list(U.gen_atom(rng)), "dom": U.gen_domain(rng)} for _ in range(rng.randint(0 if mode in ("A", "h") else 1, 2))]
+                fsnd = {"lp": list(U.gen_atom(rng)), "dom": U.gen_domain(rng, rng.choice(["none", "nodot", "dotted", "plus"]))} if withf else None
+                cases.append(make_case(rng, fields, mode=mode, args=args, envcfg=rng.choice(U.CFGS), fsnd=fsnd, flags=flags,
+                                       other=rng.choice([None, None, "date"])))
+    return cases
+
+
 def all_mailboxes(case):
     for f in case["fields"]:
         for it in f["items"]:
@@ -402,37 +417,51 @@ def main():
     thorough = a.tier == "thorough"
     rng = ck.rng
 
-    # ---- 1. the models
+    # ---- 1. the models (started now, joined before the verdict; they do not depend on the code)
+    models = []
     if not a.replay:
+        import threading
         qlen = 5 if thorough else 4
-        cfg = ck.scratch.path("AddrQuote.cfg")
-        with open(cfg, "w") as f:
-            f.write("SPECIFICATION Spec\nCONSTANTS\n Alphabet = {%s}\n MaxLen = %d\nINVARIANT Hdr822RoundTrip\nINVARIANT Hdr822IsRfc\n"
-                    "INVARIANT Smtp821RoundTrip\nINVARIANT Smtp821IsRfc\nINVARIANT RfcReadersAgree\n" % (", ".join(map(str, U.CLASSES_FULL)), qlen))
-        res = need_ok(tlc("AddrQuote", cfg, workers=NCPU, timeout=1500, heap="8g"), "AddrQuote model")
-        ck.add_tlc("AddrQuote(21 classes, MaxLen=%d)" % qlen, res)
-        if res.violated:
-            ck.model_violation("AddrQuote", res)
-        cfg = ck.scratch.path("AddrList.cfg")
-        w2, mi = (1, 3) if thorough else (1, 2)
-        with open(cfg, "w") as f:
-            f.write("SPECIFICATION Spec\nCONSTANTS\n W1 = 6\n W2 = %d\n MaxItems = %d\n PendingExcluded = %s\nINVARIANT Rendered\nINVARIANT Parses\n"
-                    "INVARIANT EnvelopeListed\nINVARIANT RewrittenSame\n" % (w2, mi, "TRUE" if PENDING_FINDINGS else "FALSE"))
-        res = need_ok(tlc("AddrList", cfg, workers=NCPU, timeout=2400, heap="8g"), "AddrList model")
-        ck.add_tlc("AddrList(W1=6,W2=%d,MaxItems=%d)" % (w2, mi), res)
-        if res.violated:
-            ck.model_violation("AddrList", res)
-        cfg = ck.scratch.path("AddrInject.cfg")
         mf = 3 if thorough else 2
-        with open(cfg, "w") as f:
-            f.write("SPECIFICATION Spec\nCONSTANTS\n MaxFields = %d\nINVARIANT EnvelopeListed\nINVARIANT BccRemoved\nINVARIANT OthersKept\n" % mf)
-        res = need_ok(tlc("AddrInject", cfg, workers=NCPU, timeout=1500, heap="8g"), "AddrInject model")
-        ck.add_tlc("AddrInject(MaxFields=%d)" % mf, res)
-        if res.violated:
-            ck.model_violation("AddrInject", res)
+        lcfg = ("SPECIFICATION Spec\nCONSTANTS\n W1 = %d\n W2 = %d\n MaxItems = %d\n PendingExcluded = %s\nINVARIANT Rendered\nINVARIANT Parses\n"
+                "INVARIANT EnvelopeListed\nINVARIANT RewrittenSame\n")
+        pe = "TRUE" if PENDING_FINDINGS else "FALSE"
+        specs = [("AddrQuote", "AddrQuote(21 classes, MaxLen=%d)" % qlen,
+                  "SPECIFICATION Spec\nCONSTANTS\n Alphabet = {%s}\n MaxLen = %d\nINVARIANT Hdr822RoundTrip\nINVARIANT Hdr822IsRfc\n"
+                  "INVARIANT Smtp821RoundTrip\nINVARIANT Smtp821IsRfc\nINVARIANT RfcReadersAgree\n" % (", ".join(map(str, U.CLASSES_FULL)), qlen), 6),
+                 ("AddrList", "AddrList(W1=6,W2=1,MaxItems=2)", lcfg % (6, 1, 2, pe), 6 if thorough else 8),
+                 ("AddrInject", "AddrInject(MaxFields=%d)" % mf,
+                  "SPECIFICATION Spec\nCONSTANTS\n MaxFields = %d\nINVARIANT EnvelopeListed\nINVARIANT BccRemoved\nINVARIANT OthersKept\n" % mf, 3)]
+        if thorough:
+            specs.append(("AddrList", "AddrList(W1=1,W2=0,MaxItems=4)", lcfg % (1, 0, 4, pe), 5))
+        for k, (mod, name, text, nw) in enumerate(specs):
+            cfg = ck.scratch.path("%s%d.cfg" % (mod, k))
+            with open(cfg, "w") as f:
+                f.write(text)
+            box = {}
+
+            def runm(mod=mod, cfg=cfg, nw=nw, box=box):
+                try:
+                    box["res"] = tlc(mod, cfg, workers=nw, timeout=3000, heap="6g", metadir=cfg + ".meta")
+                except Exception as e:                      # reported when joined
+                    box["exc"] = e
+            th = threading.Thread(target=runm)
+            th.start()
+            models.append((mod, name, th, box))
+
+    def join_models():
+        for mod, name, th, box in models:
+            th.join()
+            if "exc" in box:
+                raise Infra("%s model: %s" % (mod, box["exc"]))
+            res = need_ok(box["res"], mod + " model")
+            ck.add_tlc(name, res)
+            if res.violated:
+                ck.model_violation(mod, res)
 
     # ---- 2. the code
     tree = build_tree(ck.scratch, split=3)
+    log("C17: tree built %.1fs" % (time.time() - ck.t0))
     qq = sessions.QQDir(ck.scratch.path("qq"))
     recs, cases_of = [], {}
 
@@ -440,7 +469,11 @@ def main():
         case = json.load(open(a.replay))["case"]
         if case["kind"] == "q":
             lps = [case["lp"]]
-            recs += qa_records(tree, qq, lps) + qh_records(tree, qq, lps) + qs_records(ck, tree, qq, lps, nworkers=1)
+            sr, extra = qs_records(ck, tree, qq, lps, nworkers=1)
+            r = {"k": "q", "lp": list(lps[0]), "host": list(HOST), "aback": qa_records(tree, qq, lps)[0]}
+            r.update(sr[0])
+            r.update(qh_records(tree, qq, lps)[0])
+            recs += [r] + extra
         else:
             hc = [case]
             hrecs = run_h_cases(tree, qq, hc, "r")
@@ -454,12 +487,23 @@ def main():
         lps += [lp for lp in U.enum_locals(U.CLASSES_CORE, core_len, minlen=full_len + 1) if tuple(lp) not in seen]
         lps += U.random_locals(rng, 2000 if thorough else 500)
         ck.cov["local_parts_enumerated"] = len(lps)
-        recs += qa_records(tree, qq, lps)
-        recs += qs_records(ck, tree, qq, lps)
-        hl = U.enum_locals(U.CLASSES_FULL, qh_len) + rng.sample(lps, 3000 if thorough else 800)
-        recs += qh_records(tree, qq, hl)
-        nq = len(recs)
-        hc = enum_cases(rng, 4 if thorough else 1)
+        t0 = time.time()
+        ab = qa_records(tree, qq, lps)
+        log("C17: qa %d addresses %.1fs" % (len(ab), time.time() - t0)); t0 = time.time()
+        sr, extra = qs_records(ck, tree, qq, lps)
+        log("C17: qs done %.1fs" % (time.time() - t0)); t0 = time.time()
+        nh = len(U.enum_locals(U.CLASSES_FULL, qh_len))
+        hsel = list(range(nh)) + rng.sample(range(nh, len(lps)), 3000 if thorough else 800)
+        hr = dict(zip(hsel, qh_records(tree, qq, [lps[i] for i in hsel])))
+        log("C17: qh done, %d addresses %.1fs" % (len(hsel), time.time() - t0)); t0 = time.time()
+        for i, lp in enumerate(lps):
+            r = {"k": "q", "lp": list(lp), "host": list(HOST), "aback": ab[i], "hh": 0, "hq": [-1], "b1": [-1], "b2": [-1], "snd": [-1]}
+            r.update(sr[i])
+            r.update(hr.get(i, {}))
+            recs.append(r)
+        recs += extra
+        ck.cov["header_form_round_trips"] = len(hsel)
+        hc = enum_cases(rng, 4 if thorough else 1) + mode_flag_cases(rng)
         nrand = 12000 if thorough else 2500
         hc += random_cases(rng, nrand // 2, None)
         for ctl in U.CFGS[1:]:
@@ -469,12 +513,16 @@ def main():
             cases_of[len(recs)] = c
             recs.append(r)
         ck.cov["header_cases"] = len(hc)
+        log("C17: h done, %d cases %.1fs" % (len(hc), time.time() - t0))
 
+    join_models()
+    log("C17: models joined %.1fs" % (time.time() - ck.t0))
     # ---- 3. TLC judges every record
     recfile = ck.scratch.path("c17.ndjson")
     write_ndjson(recfile, recs)
     bad, vres = tlc_validate_records("AddrRec", "AddrRec.cfg", recfile, len(recs), chunk=400, heap="8g")
     ck.add_tlc("AddrRec", vres)
+    log("C17: validated %d records in %.1fs" % (len(recs), vres.wall))
     ck.cov["traces_validated_against_impl"] = len(recs)
     for i, r in enumerate(recs):
         if r["k"] == "h":
@@ -482,13 +530,13 @@ def main():
             ck.count(("h", bytes(c["msg"]), tuple(map(bytes, c["argv"])), tuple(sorted(c["envx"].items())), tuple(sorted(c["ctl"].items()))),
                      nontrivial=any(True for _ in all_mailboxes(c)))
         else:
-            ck.count((r["k"], r.get("verb"), tuple(r["lp"])), nontrivial=any(ch not in U.ATOMCH for ch in r["lp"]))
+            ck.count((r["k"], tuple(r["lp"])), nontrivial=any(ch not in U.ATOMCH for ch in r["lp"]))
     hs = [i for i in sorted(cases_of)]
     for i in hs[5:6] + hs[len(hs) // 2:len(hs) // 2 + 2]:
         c = cases_of[i]
         ck.sample({"message": printable(c["msg"], 300), "argv": [printable(x) for x in c["argv"]], "env": c["envx"], "control": c["ctl"],
                    "envelope": [printable(x) for x in recs[i]["env"]], "second_pass": [printable(x) for x in recs[i]["env2"]]})
-    for r in [x for x in recs if x["k"] == "qs"][3000:3002] + [x for x in recs if x["k"] == "qh"][300:301]:
+    for r in [x for x in recs if x["k"] == "q" and x.get("hh")][300:302] + [x for x in recs if x["k"] == "q"][-3:-2]:
         ck.sample({k: (printable(v) if isinstance(v, list) else v) for k, v in r.items()})
 
     # ---- 4. witnesses
@@ -509,11 +557,11 @@ def main():
         if r["k"] == "h":
             hbad.append((idx - 1, why))
         else:
-            kk = (why, r.get("verb", ""))
+            kk = (why, "mail" if r["k"] == "qm" else "")
             if kk not in best or len(r["lp"]) < len(best[kk]["lp"]):
                 best[kk] = r
     for (why, verb), r in sorted(best.items()):
-        key = "%s:%s%s:lp=%s" % (why, r["k"], ("/" + verb) if verb else "", ",".join(map(str, r["lp"][:24])))
+        key = "%s:%slp=%s" % (why, (verb + ":") if verb else "", ",".join(map(str, r["lp"][:24])))
         obs = {k: (printable(v) if isinstance(v, list) else v) for k, v in r.items() if k not in ("k", "lp", "host")}
         report(key, "local part %s (%r): %s" % (r["lp"][:24], printable(r["lp"]), obs), {"kind": "q", "lp": r["lp"]})
 
@@ -521,36 +569,50 @@ def main():
     if hbad:
         attributable = [(i, why) for i, why in hbad if why in ("EnvelopeIsNotTheListedMailboxes", "RewrittenHeaderParsesDifferently", "ValidListRefused")]
         singles, owner = [], []
-        for i, why in attributable[:60]:
-            for f, m in all_mailboxes(cases_of[i]):
-                singles.append(single_case(cases_of[i], f, m))
-                owner.append(i)
         explained = set()
+        seen = set()
+
+        def report_mailbox(why, c, r, m):
+            shape = U.mailbox_shape(m)
+            if (why, shape) in seen:
+                return
+            seen.add((why, shape))
+            key = "%s:mailbox %s;text=%s" % (why, shape, printable(m["txt"].encode("latin1")).replace(" ", "_"))
+            desc = "To: %s with %s -> envelope %s, second pass %s (expected %s)" % (
+                printable(m["txt"].encode("latin1")), {k: printable(U.dom_text(v)) for k, v in c["cfg"].items()},
+                [printable(x) for x in r["env"]], [printable(x) for x in r["env2"]],
+                printable(b".".join(bytes(w) for w in m["lp"])) + "@<rewritten host>")
+            report(key, desc, c)
+        nshrunk = 0
+        for i, why in attributable:
+            c = cases_of[i]
+            mbs = list(all_mailboxes(c))
+            if (len(mbs) == 1 and len(c["fields"]) == 1 and c["mode"] == "h" and not c["args"] and c["fields"][0]["name"] in ("to", "cc")
+                    and not c["other"] and not c["fsnd"]):
+                report_mailbox(why, c, recs[i], mbs[0][1])          # already minimal
+                explained.add(i)
+            elif nshrunk < 300:
+                nshrunk += 1
+                for f, m in mbs:
+                    singles.append(single_case(c, f, m))
+                    owner.append(i)
         if singles:
             srecs = run_h_cases(tree, qq, singles, "s")
             sfile = ck.scratch.path("c17s.ndjson")
             write_ndjson(sfile, srecs)
             sbad, sres = tlc_validate_records("AddrRec", "AddrRec.cfg", sfile, len(srecs), chunk=50)
             ck.add_tlc("AddrRec(shrunk)", sres)
-            seen = set()
             for sidx, why in sbad:
-                c, r = singles[sidx - 1], srecs[sidx - 1]
-                m = c["fields"][0]["items"][0]["m"]
-                why = why.strip('"')
                 explained.add(owner[sidx - 1])
-                shape = U.mailbox_shape(m)
-                if (why, shape) in seen:
-                    continue
-                seen.add((why, shape))
-                key = "%s:mailbox %s;text=%s" % (why, shape, printable(m["txt"].encode("latin1")).replace(" ", "_"))
-                desc = "To: %s with %s -> envelope %s, second pass %s (expected %s)" % (
-                    printable(m["txt"].encode("latin1")), {k: printable(U.dom_text(v)) for k, v in c["cfg"].items()},
-                    [printable(x) for x in r["env"]], [printable(x) for x in r["env2"]],
-                    printable(b".".join(bytes(w) for w in m["lp"])) + "@<rewritten host>")
-                report(key, desc, c)
+                c = singles[sidx - 1]
+                report_mailbox(why.strip('"'), c, srecs[sidx - 1], c["fields"][0]["items"][0]["m"])
+        worst = {}
         for i, why in hbad:
             if i in explained:
                 continue
+            if why not in worst or len(cases_of[i]["msg"]) < len(cases_of[worst[why]]["msg"]):
+                worst[why] = i
+        for why, i in sorted(worst.items()):
             c, r = cases_of[i], recs[i]
             key = "%s:case mode=%s;fields=%s;msg=%s" % (why, c["mode"], "+".join(f["name"] for f in c["fields"]), printable(c["msg"], 120).replace(" ", "_"))
             report(key, "argv %s env %s control %s: rc=%s envelope %s sender %s bcc fields left %s; second pass rc=%s %s" % (
